@@ -244,10 +244,12 @@ class Check:
             self.harness_errors += 1
         for v in res["violations"]:
             sig = v.get("sig")
-            if sig and sig in self.known_sigs:
-                fid = self.known_sigs[sig]["id"]
-                self.known_hits[fid] = self.known_hits.get(fid, 0) + 1
-                self.known_examples.setdefault(fid, v["what"])
+            parts = sig.split("+") if sig else []       # several defect models at once: known only if every one is listed
+            if parts and all(p in self.known_sigs for p in parts):
+                for p in parts:
+                    fid = self.known_sigs[p]["id"]
+                    self.known_hits[fid] = self.known_hits.get(fid, 0) + 1
+                    self.known_examples.setdefault(fid, v["what"])
             else:
                 v = dict(v)
                 v["job"] = res["job"]
